@@ -11,7 +11,7 @@ package frame
 //                      end observes a non-EOF error (a truncated frame is never delivered as a message)
 //   respects_max / bounded: what is buffered or announced never exceeds the configured maximum
 
-//@ property C04 C08 C16
+//@ property C04 C08 C09 C16
 //@ spec func isReaderMsg(m netty.Message) bool = cvReader(m) && rwf(m)
 
 // ---------------------------------------------------------------------------
